@@ -170,7 +170,7 @@ let kind_name = function
   | E_unexpected -> "unexpected" | E_missing_semi -> "missing-semi" | E_missing_colon -> "missing-colon"
   | E_undef_prefix -> "undefined-prefix" | E_conversion -> "conversion" | E_escape -> "escape"
   | E_dup_case -> "dup-case" | E_multi_default -> "multi-default" | E_final_fallthrough -> "final-fallthrough"
-  | E_empty_switch -> "empty-switch" | E_paren_mismatch -> "paren-mismatch"
+  | E_empty_switch -> "empty-switch" | E_paren_mismatch -> "paren-mismatch" | E_fname -> "fname-not-ident"
 
 let reply (n : int) (show : 'a -> Stdlib.String.t) (r : 'a pres) : Stdlib.String.t =
   match r with
